@@ -78,6 +78,9 @@ TraceFinish ==
                 ELSE IF Case.final.match_count # S.st.matchCount THEN "final_match_count"
                 ELSE IF Case.final.scan_count # S.st.scanCount THEN "final_scan_count"
                 ELSE IF Case.final.printed # S.st.printed THEN "final_printed"
+                \* print-mode: no-default removes standard-out printing only (C15)
+                ELSE IF Case.final.checkStdout /\ Case.final.stdout # (IF Case.cfg.noDefaultPrint THEN <<>> ELSE S.st.printed)
+                       THEN "final_stdout"
                 ELSE "ok"
   /\ detail' = IF S.pc = "done" THEN <<S.returned, S.unmatched, NormVars(S.st.vars), S.st.printed>> ELSE <<>>
   /\ UNCHANGED <<tid, S, i>>
